@@ -108,3 +108,94 @@ fn c18_scale_division_kilo() {
 fn c18_scale_division_giga() {
     scaled_in_bucket::<3>()
 }
+
+// ---- digit truncation on a modelled decimal string (f64::to_string stubbed: std's shortest round-trip
+// ---- printing is trusted to print k/10^4 as its exact decimal expansion)
+
+struct SGhost {
+    magic: u64,
+    len: usize,
+    bytes: [u8; 8],
+}
+static mut SG: SGhost = SGhost { magic: 0xD1FA_57A7_1C00_1801, len: 0, bytes: [0; 8] };
+
+fn to_string_model<T: std::fmt::Display + ?Sized>(_v: &T) -> String {
+    unsafe {
+        let mut s = String::with_capacity(8);
+        let mut i = 0;
+        while i < SG.len {
+            s.push(SG.bytes[i] as char);
+            i += 1;
+        }
+        s
+    }
+}
+
+/// "I.FFFF" with one integer digit (a lone 0 included) and `F` fraction digits, all digits symbolic.
+fn truncation<const F: usize>(sig: usize) {
+    let int_d: u8 = kani::any();
+    kani::assume(int_d < 10);
+    let mut frac = [0u8; F];
+    let mut i = 0;
+    while i < F {
+        let d: u8 = kani::any();
+        kani::assume(d < 10);
+        frac[i] = d;
+        i += 1;
+    }
+    // shortest round-trip never prints a trailing zero in the fraction
+    kani::assume(F == 0 || frac[F - 1] != 0);
+    unsafe {
+        SG.bytes[0] = b'0' + int_d;
+        if F > 0 {
+            SG.bytes[1] = b'.';
+        }
+        let mut i = 0;
+        while i < F {
+            SG.bytes[2 + i] = b'0' + frac[i];
+            i += 1;
+        }
+        SG.len = if F > 0 { 2 + F } else { 1 };
+    }
+    let out = format_f64(0.0, sig);
+    let o = out.as_bytes();
+    // expected: integer digit kept; max(0, sig - 1) fraction digits kept by truncation; trailing zeros and a
+    // dangling point stripped
+    let keep = if sig > 1 { sig - 1 } else { 0 };
+    let keep = if keep < F { keep } else { F };
+    let mut last = 0; // number of fraction digits remaining after stripping zeros
+    let mut i = 0;
+    while i < keep {
+        if frac[i] != 0 {
+            last = i + 1;
+        }
+        i += 1;
+    }
+    assert!(o[0] == b'0' + int_d);
+    if last == 0 {
+        assert!(o.len() == 1);
+    } else {
+        assert!(o.len() == 2 + last);
+        assert!(o[1] == b'.');
+        let mut i = 0;
+        while i < last {
+            assert!(o[2 + i] == b'0' + frac[i]);
+            i += 1;
+        }
+    }
+    unsafe { assert!(SG.magic == 0xD1FA_57A7_1C00_1801); }
+    kani::cover!(last == 0 && F > 0);
+    kani::cover!(last == keep && keep > 0);
+    kani::cover!(int_d == 0 && last > 0);
+}
+
+// @cell props=C18 tier=thorough kind=attempt timeout=2400 mem=28 cls=K
+// @desc format_f64 at 4 significant figures on the modelled string "d.dddd" (one integer digit - a lone 0 counts -
+// @desc and four symbolic fraction digits): exactly 3 decimals are kept, by truncation, trailing zeros stripped
+#[kani::proof]
+#[kani::unwind(12)]
+#[kani::stub(<f64 as std::string::ToString>::to_string, to_string_model)]
+fn c18_truncation_1_4() {
+    truncation::<4>(4)
+}
+
